@@ -381,6 +381,48 @@ def check_alg_values(ctx):
                 ctx.count("alg-value-crash:%s" % real[0])
 
 
+def check_allow_list_layers(ctx):
+    """The allow-list of a JsonWebToken governs BOTH layers it can decode: a signature-only list admits no encrypted token and the
+    other way round; an empty list admits nothing (it is a list, not the absence of one)."""
+    from authlib.jose import JsonWebEncryption
+    from impl import jwe_ref as E
+    claims = b'{"sub":"attacker","admin":true}'
+    hs = R.material("oct1", "raw")
+    jws_tok = bytes(JsonWebSignature().serialize_compact({"alg": "HS256"}, claims, hs))
+    je = JsonWebEncryption()
+    jwe_toks = {"A128KW": bytes(je.serialize_compact({"alg": "A128KW", "enc": "A128GCM"}, claims, E.material("oct16"))),
+                "dir": bytes(je.serialize_compact({"alg": "dir", "enc": "A128GCM"}, claims, E.material("oct16"))),
+                "RSA-OAEP": bytes(je.serialize_compact({"alg": "RSA-OAEP", "enc": "A128GCM"}, claims, E.material("rsa1", private=False)))}
+    jwe_keys = {"A128KW": E.material("oct16"), "dir": E.material("oct16"), "RSA-OAEP": E.material("rsa1")}
+    lists = [[], ["HS256"], "HS256", ["RS256"], ["HS256", "RS256"], ["A128KW"], ["A128GCM"], ["A128KW", "A128GCM"], ["dir", "A128GCM"], ["RSA-OAEP", "A128GCM"],
+             ["HS256", "A128KW", "A128GCM"], ["DEF"], ["none"]]
+    for allow in lists:
+        names = [allow] if isinstance(allow, str) else allow
+        for kind, tok, key, need in [("jws", jws_tok, hs, ["HS256"])] + [("jwe:" + a, t, jwe_keys[a], [a, "A128GCM"]) for a, t in jwe_toks.items()]:
+            case = {"allow": allow, "token_kind": kind}
+            ctx.case(case, ("allow-layers", json.dumps(allow), kind), "allow-layers:%s" % kind.split(":")[0])
+            outs = {}
+            try:
+                JsonWebToken(allow).decode(tok, key)
+                outs["JsonWebToken"] = "ok"
+            except Exception as e:  # noqa: BLE001
+                outs["JsonWebToken"] = type(e).__name__
+            if not isinstance(allow, str):
+                try:
+                    (JsonWebSignature(allow).deserialize_compact(tok, key) if kind == "jws" else JsonWebEncryption(allow).deserialize_compact(tok, key))
+                    outs["layer"] = "ok"
+                except Exception as e:  # noqa: BLE001
+                    outs["layer"] = type(e).__name__
+            permitted = all(n in names for n in need)
+            for api, out in outs.items():
+                ctx.count("allow-layers:%s:%s" % (api, "ok" if out == "ok" else "refused"))
+                if out == "ok" and not permitted:
+                    ctx.violation("C02:alg-policy-bypassed:%s:%s" % (api, kind.split(":")[0]),
+                                  "a %s token was accepted although its algorithms %s are not all on the allow-list" % (kind, need), case)
+                if out != "ok" and permitted:
+                    ctx.violation("C02:allowed-algorithm-refused:%s:%s" % (api, kind.split(":")[0]), "a token whose algorithms are all on the allow-list was refused (%s)" % out, case)
+
+
 def check_crit(ctx):
     m = ctx.model
     key = R.material("oct1", "raw")
@@ -426,6 +468,7 @@ def run(ctx):
     check_key_ops(ctx)
     check_matrix(ctx)
     check_alg_values(ctx)
+    check_allow_list_layers(ctx)
     check_crit(ctx)
 
 
